@@ -312,7 +312,20 @@ theorem errUnmanaged_writes :
       ["cisco.(*State).checkBanner", "linux.(*State).checkBanner", "panos.(*State).checkUnmanaged"] := by
   decide
 
+/-- Both front ends reach the run the theorems above talk about: `drc FILE` without `-C` and
+`do-approve approve DEVICE` execute ApproveOrCompare with `isCompare = false`. -/
+theorem front_ends_run_approve (b : Backend) (cfg : Cfg) (flags : List String) (dev : Dev) (plan : List String) :
+    (drcIsCompare flags = false →
+      exec ⟨cfg, dev, plan⟩ (drcMain b cfg flags 1) {} =
+        exec ⟨cfg, dev, plan⟩ (approveOrCompareP b { cfg with isCompare := false }) {}) ∧
+    exec ⟨cfg, dev, plan⟩ (doApproveMain b cfg "approve") {} =
+      exec ⟨cfg, dev, plan⟩ (approveOrCompareP b { cfg with isCompare := false }) {} := by
+  refine ⟨?_, ?_⟩
+  · intro h; simp [drcMain, h]
+  · simp [doApproveMain]
+
 def obligations : List Lean.Name := [
+  ``front_ends_run_approve,
   ``wrong_hostname_no_change, ``missing_marker_no_change_partial,
   ``missing_marker_no_change_counterexample, ``linux_gate_would_hold, ``ha_passive_no_change,
   ``marker_unconfigured_proceeds, ``marker_unconfigured_linux_clean,
